@@ -326,6 +326,15 @@ def spec(c, io, mo):
                     c['_class'] = 'mj-default-reentry'
                     return ('majority judgment (default tie-break) elects %d, successive median removal among the level candidates elects %d: '
                             'a candidate that fell behind stayed in the removal loop' % (v[1][0], want))
+    if u == 'mj' and not c.get('plus') and c['n'] == 1 and q(c['cfg']['trunc']) == 0 and (
+            v[0] != 0 or (len(v[1]) == 1 and isinstance(v[1][0], list))):
+        # no plain winner (an error or a tie) although successive median removal among the level candidates has one
+        lists = mj_lists(c['cfg'], c['votes'])
+        want = mj_ref(lists) if lists is not None else None
+        if want is not None:
+            c['_class'] = 'mj-default-reentry'
+            return ('majority judgment (default tie-break) answers %s, successive median removal among the level candidates elects %d'
+                    % (c.get('_exc') or v[1], want))
     if u == 'star' and v[0] == 0 and c['n'] == 1:
         sums = {}
         for b, w in c['votes']:
@@ -384,7 +393,7 @@ def trunc_empties(c):
 def known_class(c, io, mo):
     if c['unit'] != 'alloc' and canon(c, io) != canon(c, mo):
         return None          # not the recorded behaviour any more
-    return {'trunc-empty': 'C12-truncation-empties', 'mj-default-stats': 'C12-mj-default-stats', 'mj-default-reentry': 'C12-mj-default-reentry', 'alloc-crash': 'C12-allocated-score-crash', 'alloc-shape': 'C12-allocated-score-crash',
+    return {'trunc-empty': 'C12-truncation-empties', 'mj-default-stats': 'C12-mj-default-stats', 'alloc-crash': 'C12-allocated-score-crash', 'alloc-shape': 'C12-allocated-score-crash',
             'star-crash': 'C12-star'}.get(c.get('_class'))
 
 
